@@ -1,7 +1,7 @@
 ------------------------- MODULE Trace_AttesterChain -------------------------
 (* Trace specification of the wired family of C04: a trace recorded from ONE wired instance     *)
 (* (real validators manager, real wallet / dirk account manager, real attester, real signer,    *)
-(* real immediate submitter; the fakes are the beacon node - validators, attestation data,       *)
+(* real immediate / multinode submitter; the fakes are the beacon node - validators, attestation data,       *)
 (* attestation pool - and the wallet store) is a behaviour of AttesterChain.                      *)
 (*   Reset    a new instance: manager kind, keys in the store                                    *)
 (*   Refresh  accountmanager.Refresh returned (the first one is the start-up refresh): what the  *)
@@ -68,7 +68,7 @@ TraceAttest ==
     /\ IsEvent("Attest")
     /\ Line.called = (vals # {})
     /\ Range(Line.duty) = {<<i, CommOf(i, Epoch(s)), PosOf(i, Epoch(s))>> : i \in vals}
-    /\ Len(Line.atts) = Cardinality(AttsOf(Line))
+    \* (the same attestation arriving twice - a submitter that repeats a batch - is not C04's business: a set)
     /\ IF vals = {} THEN Attest(s, Empty, {})
        ELSE \E f \in ByPubKeyMaps(held) : Attest(s, Restrict(f, vals), AttsOf(Line))
 
